@@ -6,8 +6,9 @@ import (
 	"encoding/hex"
 	"fmt"
 	"math/rand"
-	"regexp"
 	"sort"
+	"path"
+	"regexp"
 	"strings"
 
 	"github.com/diskfs/go-diskfs/filesystem"
@@ -34,6 +35,11 @@ func roNames(cls string, n int) []string {
 			}
 		case "collide":
 			out[i] = fmt.Sprintf("file_number_%04d.dat", i)
+		case "max":
+			// names at the length limit (NAME_MAX = 255): 248..255 bytes, different at both ends
+			L := []int{248, 249, 250, 251, 254, 255}[i%6]
+			head, tail := fmt.Sprintf("n%03d_", i), fmt.Sprintf("_%03d.dat", i)
+			out[i] = head + strings.Repeat("abcdefghijklmnopqrstuvwxyz", 10)[:L-len(head)-len(tail)] + tail
 		case "unicode":
 			out[i] = fmt.Sprintf("grüße-ñandú-%03d.txt", i)
 			if i%2 == 1 {
@@ -81,6 +87,10 @@ func roTree(t map[string]any, B int64, seed int64) []fsx.Entry {
 			return fmt.Sprintf("каталог-%d", i)
 		case "collide":
 			return fmt.Sprintf("directory_number_%d", i)
+		case "max":
+			L := []int{255, 250, 249, 252}[i%4]
+			head := fmt.Sprintf("d%02d_", i)
+			return head + strings.Repeat("ABCDEFGHIJKLMNOPQRSTUVWXYZ", 10)[:L-len(head)]
 		}
 		return fmt.Sprintf("Some Directory %d", i)
 	}
@@ -494,6 +504,7 @@ func c06Exec(tp map[string]any, idx int) map[string]any {
 	bs := map[string]int64{"2048": 2048, "4096": 4096, "8192": 8192}[str(o, "bs")]
 	start := map[string]int64{"s0": 0, "s1m": 1 << 20}[str(o, "start")]
 	entries := roTree(t, bs, int64(idx))
+	ev["dirtable"] = roDirTableBytes(entries)
 	rr, jol := str(o, "rr") == "rr", str(o, "joliet") == "jol"
 	if !rr { // symlinks cannot be represented without Rock Ridge
 		var es []fsx.Entry
@@ -591,6 +602,33 @@ func c06Exec(tp map[string]any, idx int) map[string]any {
 	return ev
 }
 
+// roDirTableBytes estimates the size of the squashfs directory table of a source tree: per directory one
+// header (12 bytes) per 256 entries and 8 bytes + name per entry.
+func roDirTableBytes(es []fsx.Entry) int {
+	perDir := map[string]int{}
+	bytesOf := map[string]int{}
+	for _, e := range es {
+		d := path.Dir(e.Path)
+		perDir[d]++
+		bytesOf[d] += 8 + len(path.Base(e.Path))
+	}
+	n := 0
+	for d, c := range perDir {
+		n += bytesOf[d] + 12*((c+255)/256)
+	}
+	return n
+}
+
+func roInt(v any) int {
+	switch x := v.(type) {
+	case int:
+		return x
+	case float64:
+		return int(x)
+	}
+	return 0
+}
+
 func roSig(prop string) func(t, ev map[string]any, detail string) ([]string, string) {
 	return func(t, ev map[string]any, detail string) ([]string, string) {
 		o := toStrMap(t["o"])
@@ -599,8 +637,10 @@ func roSig(prop string) func(t, ev map[string]any, detail string) ([]string, str
 		sig := prop + "-" + res
 		raw := toStrMap(ev["raw"])
 		switch {
-		case prop == "C07" && res == "ok" && str(tr, "shape") == "boundary" && strings.Contains(js(ev["bycache"]), "unable to read directory from table"):
-			return []string{"squashfs-directory-table-beyond-one-metadata-block"}, fmt.Sprintf("squashfs image with 36 directories / 2070 entries (directory table larger than one 8 KiB metadata block): %s (options %s)", trunc(ev["bycache"]), js(o))
+		case prop == "C07" && res == "ok" && roInt(ev["dirtable"]) > 8192 && strings.Contains(js(ev["bycache"]), "unable to read directory from table"):
+			// the call site of the recorded finding: a directory whose listing starts in a later metadata
+			// block of the directory table (the table is larger than 8 KiB: many or very long names)
+			return []string{"squashfs-directory-table-beyond-one-metadata-block"}, fmt.Sprintf("squashfs image whose directory table is larger than one 8 KiB metadata block (tree %s): %s (options %s)", js(tr), trunc(ev["bycache"]), js(o))
 		case prop == "C06" && res == "err" && str(o, "rr") == "norr" && str(o, "joliet") == "jol" && strings.Contains(str(ev, "detail"), "could not find Joliet directory"):
 			return []string{"iso-joliet-only-nested-directory-unreadable"}, fmt.Sprintf("Joliet without Rock Ridge: %v (tree %s, options %s)", ev["detail"], js(tr), js(o))
 		case prop == "C06" && str(tr, "shape") == "deep9" && str(o, "rr") == "rr" && str(o, "deep") == "nodeep" && res == "ok":
@@ -670,6 +710,7 @@ func c07Exec(tp map[string]any, idx int) map[string]any {
 	bs := map[string]int64{"4096": 4096, "131072": 131072, "1048576": 1 << 20}[str(o, "bs")]
 	start := map[string]int64{"s0": 0, "s1m": 1 << 20}[str(o, "start")]
 	entries := roTree(t, bs, int64(idx))
+	ev["dirtable"] = roDirTableBytes(entries)
 	if bs > 4096 { // keep the many-file shapes affordable: the interesting sizes are relative to the block
 		for i := range entries {
 			if len(entries[i].Data) > 3<<20 {
